@@ -96,14 +96,58 @@ DESCR2 = {
 }
 
 
+DESCR3 = {
+    "C01": ("router.py gn_ls_request: the 'entry.ls_pending = True' after ensure_entry removed (ensure_entry sets it on new entries only)",
+            "a lookup is abandoned (destination off the air for all retransmissions) and its empty placeholder is not purged; during the next lookup for the same destination every further request replaces the LS buffer: only the last queued request is delivered"),
+    "C02": ("router.py GUC and LS-reply forwarders: 'LocT PV newer than the packet's DE PV?' compared on raw .msec",
+            "forwarder of a GUC / LS reply whose destination is a neighbour, location-table and packet timestamps on opposite sides of the 2^32 ms wrap: stale or wrongly overwritten DE PV"),
+    "C03": ("verify_service.py: cache of verified (signer HashedId8, generationTime) pairs that skips the signature check on a hit",
+            "a genuine packet is accepted first; a later forged packet naming the same signer and generationTime is delivered with any payload and signature"),
+    "C04": ("cv2x_link_layer.py: stop sentinel None -> b'' in stop() and 'if not data: break' in the callback loop (two cooperating sites)",
+            "a one-octet radio frame becomes b'' after stripping and ends the C-V2X callback thread silently"),
+    "C05": ("sign_service.py sign_cam: the requestedCertificate header field is added after the to-be-signed bytes were encoded",
+            "a peer's inline request names a CA certificate the sender holds: the CAM carrying requestedCertificate is signed over bytes lacking it and every receiver rejects it"),
+    "C06": ("router.py GUC and LS-reply forwarders: DE PV refresh test on raw .msec (the same change as round-3 C02)",
+            "as C02 round 3: timestamps on opposite sides of the 2^32 ms wrap"),
+    "C07": ("router.py gn_data_indicate_gbc: returns None instead of the indication when the forward step reports MAXIMUM_LENGTH_EXCEEDED / UNSPECIFIED",
+            "GBC received inside the area with RHL > 1, immediate re-broadcast (SIMPLE forwarding) and link_layer.send() raising for that re-broadcast: the payload is never delivered and later copies are duplicates"),
+    "C08": ("location_table.py new_ls_reply_packet: an entry with ls_pending counts as new (is_neighbour reset)",
+            "own lookup for S pending, then a beacon/SHB of S, then S's LS reply: S drops out of the neighbours while its entry is alive"),
+    "C09": ("certificate.py check_issuer_has_subject_permissions: compares with the issuer's NEEDED permissions (issuing PSIDs + its own appPermissions)",
+            "an issuer whose own appPermissions hold a PSID outside its issuing set (AA issues {36,37}, has appPermission 623) and a subject claiming exactly that PSID"),
+    "C10": ("cam_transmission_management.py: _should_include_lf no longer forces the LF container for the first CAM and start() no longer resets _last_lf_time_ms (two cooperating sites)",
+            "stop() then start() with the first CAM less than 500 ms after the last LF-carrying CAM of the previous activation"),
+    "C11": ("cam_transmission_management.py _get_path_history: the longitude delta range guard checks the latitude delta twice",
+            "a path-history point whose longitude differs by more than 0.0131072 degrees (antimeridian crossing, GNSS jump) with the latitude delta in range: wrapped deltaLongitude / undecodable CAM / generation stalls"),
+    "C12": ("ldm_classes.py TimestampIts.__add__ wraps sums beyond 42 bits + ldm_maintenance.py computes the expiry with that sum (two cooperating sites)",
+            "timestamp + validity*1000 > 2^42-1 (validity of ~117 years or the 0xFFFFFFFF 'forever' sentinel) followed by a maintenance run: the object vanishes"),
+    "C13": ("dictionary_database.py and tinydb_database.py: both path resolvers switched to Utils.get_nested, which returns None for a missing path (two cooperating sites, back-ends stay identical)",
+            "operators != / notlike on an attribute that some stored object of a requested type lacks: those objects are returned"),
+    "C14": ("ldm_service.py process_notifications: a subscription without bookkeeping entry counts as 'never notified' instead of 'just subscribed'",
+            "subscription A's callback unsubscribes B (ACCEPTED) during an attendance: B is still notified in that attendance"),
+    "C15": ("router.py get_sequence_number: the wrap test and reset run after the lock is released",
+            "counter at the last value of the cycle (65534 numbers handed out) and a second originator between the release and the reset: two packets with SN 0"),
+    "C16": ("ldm_service.py del_data_consumer_its_aid: only the discard stays under the lock, subscriptions are removed afterwards",
+            "deregister(aid) preempted after the lock release; another thread re-registers aid and subscribes; the first thread then removes the new subscription"),
+    "C17": ("denm_transmission_management.py _next_sequence_number: % 65535 instead of % 65536",
+            "65 535 events of one station: event 65535 reuses the action identifier of event 0 (sequence number 65535 never used)"),
+    "C18": ("vru_clustering.py _generate_unique_cluster_id returns 0 instead of None when no identifier is free",
+            "all candidate identifiers seen in recent cluster VAMs, then try_create_cluster: leader of cluster 0"),
+    "C19": ("dcc_adaptive.py step 1: helper returning None for an incomplete pair, chosen with 'or' (a valid global average of 0.0 is falsy)",
+            "both global CBR values exactly 0.0 with a non-zero local CBR: the local value is used"),
+    "C20": ("basic_header.py: LT multiplier treated as 5 bits in set_value_in_millis and in the decoder (two cooperating sites, own round-trips still work)",
+            "lifetimes whose best encoding needs a multiplier 32..63, and received LT octets with such a multiplier"),
+}
+
+
 def main():
     res = {}
     for f in sorted(glob.glob(os.path.join(HERE, ".work", "seeded*_eval_*.log"))):
         for line in open(f):
-            m = re.match(r"RESULT (C\d\d2?) demo_without=(\d+) demo_with=(\d+) suite=\[(.*?)\] check_exit=(\d+) ?(.*)", line)
+            m = re.match(r"RESULT (C\d\d[23]?) demo_without=(\d+) demo_with=(\d+) suite=\[(.*?)\] check_exit=(\d+) ?(.*)", line)
             if m:
                 res[m.group(1)] = m.groups()
-    items = [(pid, "", v) for pid, v in sorted(DESCR.items())] + [(pid, "2", v) for pid, v in sorted(DESCR2.items())]
+    items = [(pid, "", v) for pid, v in sorted(DESCR.items())] + [(pid, "2", v) for pid, v in sorted(DESCR2.items())] + [(pid, "3", v) for pid, v in sorted(DESCR3.items())]
     for pid, suf, (change, needs) in items:
         d = os.path.join(HERE, "seeded", pid)
         if not os.path.isdir(d):
@@ -113,9 +157,9 @@ def main():
             "property": pid,
             "change": change,
             "needs": needs,
-            "round": 2 if suf else 1, "files": {"patch": "patch%s.diff" % suf, "demo": "demo%s.py" % suf, "notes": "NOTES%s.md" % suf},
+            "round": int(suf) if suf else 1, "files": {"patch": "patch%s.diff" % suf, "demo": "demo%s.py" % suf, "notes": "NOTES%s.md" % suf},
             "origin": "fresh sub-agent given only the property text%s and a scratch git worktree (/tmp/seed%s-%s); NOTES%s.md is its own report" % (
-                " (plus one line naming the round-1 change, to be avoided)" if suf else "", suf, pid, suf),
+                " (plus one line naming each earlier change, to be avoided)" if suf else "", suf, pid, suf),
             "confirmed_in_scratch_worktree": None if r is None else {
                 "demo_exit_without_change": int(r[1]), "demo_exit_with_change": int(r[2]), "unit_suite_with_change": re.sub(r", \d+ warnings.*", "", r[3]),
                 "commands": ["git -C /repo worktree add /tmp/sv-%s HEAD" % pid, "PYTHONPATH=/tmp/sv-%s/src /venv/bin/python demo.py  (before / after git apply patch.diff)" % pid,
